@@ -1271,11 +1271,22 @@ impl<'a> Cx<'a> {
                 let built = self.s["built"].as_bool().unwrap_or(false);
                 // (a selector built from index and RPL cannot name the LDT)
                 let sel = if built { sel & !4 } else { sel };
+                // a raw selector (TI bit included) whose RPL is replaced afterwards
+                let rerpl = self.s["rerpl"].as_u64().map(|r| (r & 3) as u16);
+                let raw_first = sel;
+                let sel = match rerpl {
+                    Some(r) if !built => (sel & !3) | r,
+                    _ => sel,
+                };
                 let out = call(&label, true, || unsafe {
                     let s = if built {
                         // index + RPL through the constructor and the RPL setter (TI stays 0)
                         let mut s = SegmentSelector::new(sel >> 3, x86_64::PrivilegeLevel::Ring0);
                         s.set_rpl(x86_64::PrivilegeLevel::from_u16(sel & 3));
+                        s
+                    } else if let Some(r) = rerpl {
+                        let mut s = SegmentSelector(raw_first);
+                        s.set_rpl(x86_64::PrivilegeLevel::from_u16(r));
                         s
                     } else {
                         SegmentSelector(sel)
@@ -2021,7 +2032,14 @@ fn mk(rng: &mut Rng, op: &str, like: Option<&Value>) -> Value {
         "seg_get" => json!({"op": op, "seg": sel_arg(rng, "seg", 6)}),
         "seg_set" => {
             let seg = rng.below(6);
-            json!({"op": op, "seg": seg, "sel": seg_selector(rng, seg), "built": rng.chance(30)})
+            let mut s = json!({"op": op, "seg": seg, "sel": seg_selector(rng, seg), "built": rng.chance(30)});
+            if rng.chance(25) {
+                s["rerpl"] = json!(rng.below(4));
+                if rng.chance(50) {
+                    s["sel"] = json!(s["sel"].as_u64().unwrap_or(0) | 4);
+                }
+            }
+            s
         }
         "seg_read_base" => json!({"op": op, "gs": sel_arg(rng, "gs", 2)}),
         "seg_write_base" => json!({"op": op, "gs": rng.below(2), "addr": addr(rng)}),
